@@ -6,6 +6,7 @@ package c04
 import (
 	"fmt"
 	"os"
+	"reflect"
 	"runtime/debug"
 	"strconv"
 	"strings"
@@ -117,7 +118,7 @@ func (f *typeFacts) scan(td *gen.TD) {
 		if f.cats == nil {
 			f.cats = map[string]bool{}
 		}
-		f.cats[td.Kind] = true
+		f.cats[catBase(td.Kind)] = true
 		if info.valid != nil {
 			f.validators++
 		}
@@ -336,6 +337,7 @@ type call struct {
 	cfg       *ucfg.Config                  // the configuration object if it exists already (nil: made from Cfg)
 	newTarget func(twin bool) reflect.Value // pointer to a target in the state before the call
 	realT     reflect.Type
+	preText   func() string // the state of the target before the call, if Pre does not describe it
 }
 
 // outcome of a call the oracle accepted.
@@ -344,6 +346,7 @@ type outcome struct {
 	cfg        *ucfg.Config // the configuration object
 	real, twin reflect.Value
 	unpacked   bool // Unpack returned nil (for both targets, with equal results)
+	rejected   bool // a reference validator rejects (so Unpack failed)
 }
 
 func runCase(c Case, r *runlog.R) error {
@@ -367,9 +370,9 @@ func runCall(c *call, r recorder) (out outcome, _ error) {
 		facts.scan(d)
 	}
 	// D30 needs a non-nil pointer to a collection in the pre-filled value
-	facts.ptrToColl = facts.ptrToColl && (c.Pre == nil || nonNilPtrToColl(c.T, c.Pre))
+	facts.ptrToColl = facts.ptrToColl && (c.preText != nil || nonNilPtrToColl(c.T, c.Pre))
 	// D23 needs a non-nil pointer in a tagged pointer field of the pre-filled value
-	facts.tagOnPtr = facts.tagOnPtr && (c.Pre == nil || nonNilTaggedPtr(c.T, c.Pre))
+	facts.tagOnPtr = facts.tagOnPtr && (c.preText != nil || nonNilTaggedPtr(c.T, c.Pre))
 	if id := facts.avoided(); id != "" {
 		r.Excluded(id)
 		r.Discard()
@@ -415,25 +418,31 @@ func runCall(c *call, r recorder) (out outcome, _ error) {
 		}
 	}
 
-	twin := c.newValue(true)
-	realT := c.T.Type()
+	twin := c.newTarget(true)
+	realT := c.realT
 	describe := func() string {
 		pol := ""
 		if c.Policy != 0 {
 			pol = ", global list policy " + []string{"", "replace", "append", "prepend"}[c.Policy]
 		}
-		return fmt.Sprintf("\n type    %v\n prefill %s\n config  %s (VarExp %v%s)", realT, showV(c.newValue(false).Elem()), showTree(c.Cfg), c.VarExp, pol)
+		pre := ""
+		if c.preText != nil {
+			pre = c.preText()
+		} else {
+			pre = showV(c.newTarget(false).Elem())
+		}
+		return fmt.Sprintf("\n type    %v\n prefill %s\n config  %s (VarExp %v%s%s)", realT, pre, showTree(c.Cfg), c.VarExp, pol, c.extraText)
 	}
 
 	// R: what a validation-free Unpack produces
 	if err, panicked := safely(func() error { return cfg.Unpack(twin.Interface(), unpackOpts...) }); err != nil {
 		if panicked {
-			return fmt.Errorf("Unpack into the twin type (no validators) panicked: %v%s", err, describe())
+			return out, fmt.Errorf("Unpack into the twin type (no validators) panicked: %v%s", err, describe())
 		}
 		// the configuration does not convert into the type: outside the property's subject
 		r.Class("discarded: twin unpack failed")
 		r.Discard()
-		return nil
+		return out, nil
 	}
 
 	w := &walker{root: c.Cfg, varexp: c.VarExp, dyn: reg}
@@ -441,13 +450,13 @@ func runCall(c *call, r recorder) (out outcome, _ error) {
 	if w.d48 && open("D48") {
 		r.Excluded("D48")
 		r.Discard()
-		return nil
+		return out, nil
 	}
 	if w.d59 && open("D59") {
 		// class of D59: Validate() of a value an interface holds is not called when the configuration does not mention it
 		r.Excluded("D59")
 		r.Discard()
-		return nil
+		return out, nil
 	}
 	var strict, soft []*eval
 	for i := range w.evals {
@@ -461,30 +470,30 @@ func runCall(c *call, r recorder) (out outcome, _ error) {
 		}
 	}
 
-	real := c.newValue(false)
+	real := c.newTarget(false)
 	uerr, panicked := safely(func() error { return cfg.Unpack(real.Interface(), unpackOpts...) })
 	if panicked {
-		return fmt.Errorf("Unpack panicked: %v%s", uerr, describe())
+		return out, fmt.Errorf("Unpack panicked: %v%s", uerr, describe())
 	}
 
 	switch {
 	case uerr == nil:
 		if len(strict) > 0 {
-			return fmt.Errorf("Unpack returned nil although the result breaks a validator: %s%s\n result  %s", showEvals(strict), describe(), showV(real.Elem()))
+			return out, fmt.Errorf("Unpack returned nil although the result breaks a validator: %s%s\n result  %s", showEvals(strict), describe(), showV(real.Elem()))
 		}
 		// independently of the twin: walk the result itself
 		w2 := &walker{root: c.Cfg, varexp: c.VarExp, dyn: reg}
 		w2.walk(c.T, real.Elem(), pos{cfg: c.Cfg})
 		for i := range w2.evals {
 			if e := &w2.evals[i]; !e.ok && !e.soft {
-				return fmt.Errorf("Unpack returned nil but the returned value breaks %s%s\n result  %s", e, describe(), showV(real.Elem()))
+				return out, fmt.Errorf("Unpack returned nil but the returned value breaks %s%s\n result  %s", e, describe(), showV(real.Elem()))
 			}
 		}
 		if !same(real.Elem(), twin.Elem()) {
-			return fmt.Errorf("validators altered the result%s\n with validators    %s\n without validators %s", describe(), showV(real.Elem()), showV(twin.Elem()))
+			return out, fmt.Errorf("validators altered the result%s\n with validators    %s\n without validators %s", describe(), showV(real.Elem()), showV(twin.Elem()))
 		}
 	case len(strict) == 0 && len(soft) == 0:
-		return fmt.Errorf("every validator accepts the result of a validation-free Unpack, but Unpack failed: %v%s\n expected %s", uerr, describe(), showV(twin.Elem()))
+		return out, fmt.Errorf("every validator accepts the result of a validation-free Unpack, but Unpack failed: %v%s\n expected %s", uerr, describe(), showV(twin.Elem()))
 	default:
 		// the error has to name a rejected field or a field enclosing it. Under append/prepend/replace an element's
 		// position in the result differs from the index of the setting it came from (which is what the error
@@ -542,7 +551,7 @@ func runCall(c *call, r recorder) (out outcome, _ error) {
 			}
 		}
 		if !match {
-			return fmt.Errorf("Unpack failed, but the error does not name a rejected field or a field enclosing it: %v\n rejected: %s%s", uerr, showEvals(append(append([]*eval{}, strict...), soft...)), describe())
+			return out, fmt.Errorf("Unpack failed, but the error does not name a rejected field or a field enclosing it: %v\n rejected: %s%s", uerr, showEvals(append(append([]*eval{}, strict...), soft...)), describe())
 		}
 	}
 
@@ -682,7 +691,8 @@ func runCall(c *call, r recorder) (out outcome, _ error) {
 	for _, k := range catKinds {
 		r.ClassIf(facts.cats[k], "type: "+k)
 	}
-	return nil
+	out.discarded, out.real, out.twin, out.unpacked, out.rejected = false, real, twin, uerr == nil, len(strict) > 0
+	return out, nil
 }
 
 var paramClasses = []string{"param: integer in base-prefix / separator / signed syntax", "param: float in exponent / hex / bare-point / signed syntax",
